@@ -902,6 +902,16 @@ func (root *Root) formReflectArgs(
 
 // reflectArg converts a coerced argument value to a value that can be passed
 // as a method parameter of type pt.
+func isNegative(rv reflect.Value) bool {
+	switch rv.Kind() {
+	case reflect.Int, reflect.Int8, reflect.Int16, reflect.Int32, reflect.Int64:
+		return rv.Int() < 0
+	case reflect.Float32, reflect.Float64:
+		return rv.Float() < 0.0
+	}
+	return false
+}
+
 func reflectArg(v interface{}, pt reflect.Type) (rv reflect.Value, err error) {
 	if IsNil(v) {
 		return reflect.Zero(pt), nil
@@ -923,8 +933,10 @@ func reflectArg(v interface{}, pt reflect.Type) (rv reflect.Value, err error) {
 	switch {
 	case isNum(vt.Kind()) && isNum(pt.Kind()):
 		cv := rv.Convert(pt)
-		// Make sure the value survives the conversion.
-		if back := cv.Convert(vt); back.Interface() == v {
+		// Make sure the value survives the conversion. A negative integer
+		// converted to an unsigned type and back is the same integer again
+		// so the sign is checked as well.
+		if back := cv.Convert(vt); back.Interface() == v && isNegative(rv) == isNegative(cv) {
 			return cv, nil
 		}
 	case vt.Kind() == reflect.String && pt.Kind() == reflect.String,
